@@ -228,6 +228,19 @@ def pairMem (mode : Nat) (base : Register) (off : Int) (scale : Int) : Option Op
     else none
   | none => none
 
+/-- register-offset addressing `[base, idx, ext #amt]`: only UXTW/LSL/SXTW/SXTX, amount 0 or the access size -/
+def memRegOpd (rn rm : Register) (e : Extend) (a : Int) (lg : Nat) : Option Opd :=
+  let en : Option (String × Nat) := match e with
+    | .UXTW => some ("uxtw", 0) | .LSL => some ("lsl", 1) | .SXTW => some ("sxtw", 0) | .SXTX => some ("sxtx", 1)
+    | _ => none
+  match en, rsp 1 rn with
+  | some (es, w), some base =>
+    let amt : Option (Option Nat) := if a = 0 then some none else if a = lg && lg ≠ 0 then some (some lg) else none
+    (match amt, rz w rm with
+     | some am, some idx => some (.memReg base idx es am)
+     | _, _ => none)
+  | _, _ => none
+
 def specLdSt (name : String) (b : String) (sf : Nat) (args : List Arg) : Option SpecRes :=
   let sc : Int := if sf = 1 then 8 else 4
   match b, args with
@@ -280,18 +293,18 @@ def specLdSt (name : String) (b : String) (sf : Nat) (args : List Arg) : Option 
       | _ => none
     else
       match rest with
-      | [.r rn, .r rm, .ex e, .n a] =>
-        let en : Option (String × Nat) := match e with
-          | .UXTW => some ("uxtw", 0) | .LSL => some ("lsl", 1) | .SXTW => some ("sxtw", 0) | .SXTX => some ("sxtx", 1)
-          | _ => none
-        match en, rsp 1 rn with
-        | some (es, w), some base =>
-          let amt : Option (Option Nat) := if a = 0 then some none else if a = lg && lg ≠ 0 then some (some lg) else none
-          (match amt, rz w rm with
-           | some am, some idx => some (build m [rt, some (.memReg base idx es am)])
-           | _, _ => some .refuse)
-        | _, _ => some .refuse
+      | [.r rn, .r rm, .ex e, .n a] => some (build m [rt, memRegOpd rn rm e a lg])
       | _ => none
+
+/-- `addv` destination (scalar of the element size) and source (vector arrangement) -/
+def addvD (size q : Int) (rd : NeonRegister) : Option Opd :=
+  if size = 0 && fits q 0 1 then some (.b rd.v.toNat)
+  else if size = 1 && fits q 0 1 then some (.h rd.v.toNat)
+  else if size = 2 && q = 1 then some (.s rd.v.toNat) else none
+def addvV (size q : Int) (rn : NeonRegister) : Option Opd :=
+  if size = 0 && fits q 0 1 then some (.v rn.v.toNat (if q = 1 then "16b" else "8b"))
+  else if size = 1 && fits q 0 1 then some (.v rn.v.toNat (if q = 1 then "8h" else "4h"))
+  else if size = 2 && q = 1 then some (.v rn.v.toNat "4s") else none
 
 def specFp (name : String) (args : List Arg) : Option SpecRes :=
   match name, args with
@@ -309,18 +322,10 @@ def specFp (name : String) (args : List Arg) : Option SpecRes :=
   | "scvtf_si_dx", [.f rd, .r rn] => some (build "scvtf" [fpr 1 rd, oreg (rz 1 rn)])
   | "scvtf_si_sw", [.f rd, .r rn] => some (build "scvtf" [fpr 0 rd, oreg (rz 0 rn)])
   | "scvtf_si_sx", [.f rd, .r rn] => some (build "scvtf" [fpr 0 rd, oreg (rz 1 rn)])
-  | "addv", [.n q, .n size, .f rd, .f rn] =>
-    let n := rn.v.toNat
-    let d := rd.v.toNat
-    if size = 0 && fits q 0 1 then some (.ok ⟨"addv", [.b d, .v n (if q = 1 then "16b" else "8b")]⟩)
-    else if size = 1 && fits q 0 1 then some (.ok ⟨"addv", [.h d, .v n (if q = 1 then "8h" else "4h")]⟩)
-    else if size = 2 && q = 1 then some (.ok ⟨"addv", [.s d, .v n "4s"]⟩)
-    else some .refuse
+  | "addv", [.n q, .n size, .f rd, .f rn] => some (build "addv" [addvD size q rd, addvV size q rn])
   | "cnt", [.n q, .n size, .f rd, .f rn] =>
-    if size = 0 && fits q 0 1 then
-      let a := if q = 1 then "16b" else "8b"
-      some (.ok ⟨"cnt", [.v rd.v.toNat a, .v rn.v.toNat a]⟩)
-    else some .refuse
+    some (build "cnt" [guard' (size = 0 && fits q 0 1) (some (.v rd.v.toNat (if q = 1 then "16b" else "8b"))),
+      some (.v rn.v.toNat (if q = 1 then "16b" else "8b"))])
   | _, _ =>
   match fpSuffix name, args with
   | some (b, ty), [.f rd, .f rn, .f rm] =>
